@@ -212,6 +212,7 @@ func VerifC12Pool() {
 // closed and never handed out again, and at most MaxConns connections are open.
 func VerifC11History() {
 	srv := ch.VerifNewServer()
+	srv.CloseErr = verifChoice("close-reports-error", 2) == 1
 	maxConns := int32(verifIntRange("maxconns", 1, 2))
 	p := vPool(srv, maxConns, time.Hour, time.Hour)
 	ctx := context.Background()
